@@ -540,8 +540,8 @@ def _run_lookup(e, case, log, probes):
         return True
     if raised is not None:
         raise _Bad('spurious-duplicate-error',
-                   '%s raised DuplicateKeyError(%s) but no key repeats'
-                   % (what, raised))
+                   '%s raised DuplicateKeyError(%r) but no key repeats'
+                   % (what, getattr(raised, 'key', None)))
     # records: compare as tuples
     g = dict((k, ([tuple(x) for x in v] if fn == 'recordlookup'
                   else tuple(v) if fn == 'recordlookupone' else v))
